@@ -541,7 +541,9 @@ fn gen_event(rng: &mut Rng, k: &Contract, noisy: bool, settle: bool) -> Option<E
 fn run_generated(rt: &Runtime, rng: &mut Rng, thorough: bool, focus_limits: bool) -> (Vec<u64>, Vec<u64>) {
     let lim = |rng: &mut Rng| -> u64 {
         if focus_limits {
-            rng.pick(&[1u64, 2, 2, 3, 3, 4])
+            // small limits so that the counted sets saturate; one side is sometimes unlimited
+            // (asymmetric configurations), never both
+            rng.pick(&[0u64, 1, 2, 2, 3, 3, 4, 2, 3])
         } else {
             rng.pick(&[0u64, 0, 0, 1, 2, 3, 4])
         }
